@@ -15,6 +15,7 @@ import (
 	"flag"
 	"fmt"
 	"go/ast"
+	"go/build"
 	"go/format"
 	"go/parser"
 	"go/printer"
@@ -25,6 +26,13 @@ import (
 	"strconv"
 	"strings"
 )
+
+// the build context the checker is compiled with: default platform plus the verif tag
+var buildCtx = func() build.Context {
+	c := build.Default
+	c.BuildTags = append(c.BuildTags, "verif")
+	return c
+}()
 
 const shimBase = "github.com/cloudwego/frugal/internal/verifshim/"
 
@@ -76,6 +84,10 @@ func main() {
 			return nil
 		}
 		if !strings.HasSuffix(path, ".go") || strings.HasSuffix(path, "_test.go") {
+			return nil
+		}
+		// files excluded by build constraints (GOOS/GOARCH/tags/Go version) are not part of the build
+		if ok, err := buildCtx.MatchFile(filepath.Dir(path), filepath.Base(path)); err == nil && !ok {
 			return nil
 		}
 		src, err := os.ReadFile(path)
